@@ -406,4 +406,604 @@ theorem Inv.delete {sl : List Slot} (hinv : Inv sl) {bk p : Nat} {b : List UInt8
       have : y ≠ bk := fun e => by subst e; rw [hlive] at hy; cases hy; exact hne rfl
       exact ⟨y, by rw [hg]; simp only [this, if_false]; exact hy⟩
 
+
+theorem Inv.replicate (n : Nat) : Inv (List.replicate n Slot.empty) := by
+  have h : ∀ i, gd (List.replicate n Slot.empty) i = .empty := by
+    intro i; unfold gd
+    by_cases hi : i < n
+    · simp [List.getD_eq_getElem?_getD, hi]
+    · simp [List.getD_eq_getElem?_getD, hi]
+  refine ⟨?_, ?_⟩
+  · intro i j p q b hi _; rw [h] at hi; cases hi
+  · intro i p b hi; rw [h] at hi; cases hi
+
+theorem not_live_replicate (n q : Nat) (c : List UInt8) : ¬ Live (List.replicate n Slot.empty) q c := by
+  rintro ⟨y, hy⟩
+  unfold gd at hy
+  by_cases hi : y < n <;> simp [List.getD_eq_getElem?_getD, hi] at hy
+
+/-- symbols listed in an (old) slot array -/
+def InOld (old : List Slot) (q : Nat) (c : List UInt8) : Prop := Slot.live q c ∈ old
+
+/-- the re-insertion loop of `janet_cache_resize` keeps the invariant and only ever contains symbols of the old cache -/
+theorem reinsert_inv : ∀ (old new : List Slot), Inv new →
+    Inv (reinsert old new) ∧ (reinsert old new).length = new.length ∧
+      ∀ q c, Live (reinsert old new) q c → Live new q c ∨ InOld old q c
+  | [], new, h => ⟨h, rfl, fun q c hl => Or.inl hl⟩
+  | .empty :: rest, new, h => by
+      have := reinsert_inv rest new h
+      simp only [reinsert]
+      exact ⟨this.1, this.2.1, fun q c hl => (this.2.2 q c hl).imp id (fun h' => List.mem_cons_of_mem _ h')⟩
+  | .deleted :: rest, new, h => by
+      have := reinsert_inv rest new h
+      simp only [reinsert]
+      exact ⟨this.1, this.2.1, fun q c hl => (this.2.2 q c hl).imp id (fun h' => List.mem_cons_of_mem _ h')⟩
+  | .live p b :: rest, new, h => by
+      by_cases hex : ∃ q, Live new q b
+      · obtain ⟨q, i, hi⟩ := hex
+        obtain ⟨new', bkt, hf, _, hinv', hlen', hlive'⟩ := find_hit h hi
+        simp only [reinsert, hf]
+        exact ⟨hinv', hlen', fun q c hl => Or.inl ((hlive' q c).mp hl)⟩
+      · have hno : ∀ q, ¬ Live new q b := fun q hq => hex ⟨q, hq⟩
+        obtain ⟨r, hf, hb⟩ := find_miss hno
+        cases r with
+        | none => simp only [reinsert, hf]; exact ⟨h, trivial, fun q c hl => Or.inl hl⟩
+        | some bk =>
+          simp only [reinsert, hf]
+          obtain ⟨hlt, hfree, hreach⟩ := hb bk rfl
+          have hins := Inv.insert h hno (ptr := p) hlt hfree hreach
+          have := reinsert_inv rest (new.set bk (.live p b)) hins.1
+          refine ⟨this.1, by rw [this.2.1]; simp, fun q c hl => ?_⟩
+          rcases this.2.2 q c hl with h1 | h1
+          · rcases (hins.2 q c).mp h1 with h2 | ⟨h2, h3⟩
+            · exact Or.inl h2
+            · subst h2; subst h3; exact Or.inr (List.mem_cons_self ..)
+          · exact Or.inr (List.mem_cons_of_mem _ h1)
+
+theorem inOld_live {old : List Slot} {q : Nat} {c : List UInt8} (h : InOld old q c) : Live old q c := by
+  obtain ⟨i, hi, he⟩ := List.getElem_of_mem h
+  exact ⟨i, by unfold gd; simp [List.getD_eq_getElem?_getD, hi, he]⟩
+
+
+/-- invariant of the whole cache state: the slot invariant, every cached address was handed out before (`next`), and one
+    address names one symbol -/
+structure CInv (c : Cache) : Prop where
+  inv : Inv c.slots
+  fresh : ∀ q b, Live c.slots q b → q < c.next
+  ptrInj : ∀ q b b', Live c.slots q b → Live c.slots q b' → b = b'
+
+theorem init_inv : CInv init :=
+  ⟨Inv.replicate _, fun q b h => absurd h (not_live_replicate _ _ _), fun q b b' h => absurd h (not_live_replicate _ _ _)⟩
+
+/-- `janet_symbol_deinit`: the symbol with these bytes (if any) leaves the cache, every other symbol stays -/
+theorem deinit_spec {c : Cache} (h : CInv c) (b : List UInt8) :
+    CInv (deinit c b) ∧ ∀ q x, Live (deinit c b).slots q x ↔ (Live c.slots q x ∧ x ≠ b) := by
+  by_cases hex : ∃ q, Live c.slots q b
+  · obtain ⟨q, i, hi⟩ := hex
+    obtain ⟨sl', bkt, hf, hb, hinv', _, hlive'⟩ := find_hit h.inv hi
+    have hd := Inv.delete hinv' hb vacatedByDeinit_ne vacatedByDeinit_not_live
+    have hl : ∀ q x, Live (deinit c b).slots q x ↔ (Live c.slots q x ∧ x ≠ b) := by
+      intro q x; simp only [deinit, hf]; rw [hd.2, hlive']
+    refine ⟨⟨by simp only [deinit, hf]; exact hd.1, fun q x hq => ?_, fun q x x' h1 h2 => ?_⟩, hl⟩
+    · have := ((hl q x).mp hq).1
+      have := h.fresh q x this
+      simpa [deinit, hf] using this
+    · exact h.ptrInj q x x' ((hl q x).mp h1).1 ((hl q x').mp h2).1
+  · have hno : ∀ q, ¬ Live c.slots q b := fun q hq => hex ⟨q, hq⟩
+    obtain ⟨r, hf, _⟩ := find_miss hno
+    have hl : ∀ q x, Live (deinit c b).slots q x ↔ (Live c.slots q x ∧ x ≠ b) := by
+      intro q x; simp only [deinit, hf]
+      exact ⟨fun hq => ⟨hq, fun e => hno q (e ▸ hq)⟩, fun hq => hq.1⟩
+    refine ⟨⟨by simp only [deinit, hf]; exact h.inv, fun q x hq => ?_, fun q x x' h1 h2 => ?_⟩, hl⟩
+    · have := h.fresh q x ((hl q x).mp hq).1
+      simpa [deinit, hf] using this
+    · exact h.ptrInj q x x' ((hl q x).mp h1).1 ((hl q x').mp h2).1
+
+/-- `janet_symcache_put` of a new symbol (bytes not in the cache, bucket from the failed lookup) -/
+theorem put_spec {c : Cache} (hinv : Inv c.slots) {b : List UInt8} (hno : ∀ q, ¬ Live c.slots q b) {ptr : Nat}
+    {bucket : Option Nat}
+    (hb : ∀ bk, bucket = some bk → bk < c.slots.length ∧ (gd c.slots bk = .empty ∨ gd c.slots bk = .deleted) ∧ Reach c.slots b bk)
+    {c' : Cache} (hput : put c ptr b bucket = some c') :
+    Inv c'.slots ∧ c'.next = c.next ∧ Live c'.slots ptr b ∧
+      ∀ q x, Live c'.slots q x → (Live c.slots q x ∨ (q = ptr ∧ x = b)) := by
+  unfold put at hput
+  by_cases hres : (c.count + c.deleted) * 2 > c.slots.length
+  · simp only [hres, if_true] at hput
+    -- resized
+    have hr := reinsert_inv c.slots (List.replicate (tablen (2 * c.count + 1)) .empty) (Inv.replicate _)
+    have hsub : ∀ q x, Live (resize c (tablen (2 * c.count + 1))).slots q x → Live c.slots q x := by
+      intro q x hq
+      rcases hr.2.2 q x hq with h1 | h1
+      · exact absurd h1 (not_live_replicate _ _ _)
+      · exact inOld_live h1
+    have hno2 : ∀ q, ¬ Live (resize c (tablen (2 * c.count + 1))).slots q b := fun q hq => hno q (hsub q b hq)
+    obtain ⟨r, hf, hb2⟩ := find_miss hno2
+    simp only [hf] at hput
+    cases r with
+    | none => simp at hput
+    | some bk =>
+      simp only [Option.some.injEq] at hput
+      obtain ⟨hlt, hfree, hreach⟩ := hb2 bk rfl
+      have hins := Inv.insert (show Inv (resize c (tablen (2 * c.count + 1))).slots from hr.1) hno2 (ptr := ptr) hlt hfree hreach
+      subst hput
+      refine ⟨hins.1, rfl, (hins.2 ptr b).mpr (Or.inr ⟨rfl, rfl⟩), fun q x hq => ?_⟩
+      rcases (hins.2 q x).mp hq with h1 | h1
+      · exact Or.inl (hsub q x h1)
+      · exact Or.inr h1
+  · simp only [hres, if_false] at hput
+    cases bucket with
+    | none => simp at hput
+    | some bk =>
+      simp only [Option.some.injEq] at hput
+      obtain ⟨hlt, hfree, hreach⟩ := hb bk rfl
+      have hins := Inv.insert hinv hno (ptr := ptr) hlt hfree hreach
+      subst hput
+      exact ⟨hins.1, rfl, (hins.2 ptr b).mpr (Or.inr ⟨rfl, rfl⟩), fun q x hq => (hins.2 q x).mp hq⟩
+
+/-- `janet_symbol` on bytes that are in the cache returns the existing address; nothing else changes -/
+theorem intern_live {c : Cache} (h : CInv c) {p : Nat} {b : List UInt8} (hl : Live c.slots p b) :
+    ∃ c', intern c b = some (c', p) ∧ CInv c' ∧ c'.next = c.next ∧ ∀ q x, Live c'.slots q x ↔ Live c.slots q x := by
+  obtain ⟨i, hi⟩ := hl
+  obtain ⟨sl', bkt, hf, hb, hinv', _, hlive'⟩ := find_hit h.inv hi
+  unfold gd at hb
+  refine ⟨{ c with slots := sl' }, by simp only [intern, hf, hb], ⟨hinv', fun q x hq => h.fresh q x ((hlive' q x).mp hq),
+    fun q x x' h1 h2 => h.ptrInj q x x' ((hlive' q x).mp h1) ((hlive' q x').mp h2)⟩, rfl, hlive'⟩
+
+/-- `janet_symbol` on bytes that are not in the cache allocates a fresh address (or trips the NULL-bucket assertion) -/
+theorem intern_new {c : Cache} (h : CInv c) {b : List UInt8} (hno : ∀ q, ¬ Live c.slots q b) {c' : Cache} {p : Nat}
+    (hi : intern c b = some (c', p)) :
+    p = c.next ∧ CInv c' ∧ Live c'.slots p b ∧ ∀ q x, Live c'.slots q x → (Live c.slots q x ∨ (q = p ∧ x = b)) := by
+  obtain ⟨r, hf, hb⟩ := find_miss hno
+  cases r with
+  | none => simp [intern, hf] at hi
+  | some bk0 =>
+  simp only [intern, hf, Option.map_eq_some_iff] at hi
+  obtain ⟨c'', hput, he⟩ := hi
+  simp only [Prod.mk.injEq] at he
+  obtain ⟨he1, he2⟩ := he
+  subst he1; subst he2
+  have := put_spec (c := { c with slots := c.slots, next := c.next + 1 }) h.inv hno hb hput
+  obtain ⟨hinv', hnext, hl, hsub⟩ := this
+  refine ⟨rfl, ⟨hinv', fun q x hq => ?_, fun q x x' h1 h2 => ?_⟩, hl, hsub⟩
+  · rw [hnext]
+    rcases hsub q x hq with h1 | ⟨h1, _⟩
+    · have := h.fresh q x h1; simp; omega
+    · simp; omega
+  · rcases hsub q x h1 with a | ⟨a1, a2⟩ <;> rcases hsub q x' h2 with b' | ⟨b1, b2⟩
+    · exact h.ptrInj q x x' a b'
+    · have := h.fresh q x a; omega
+    · have := h.fresh q x' b'; omega
+    · rw [a2, b2]
+
+
+def isLive : Slot → Bool
+  | .live _ _ => true
+  | _ => false
+def isOcc : Slot → Bool
+  | .empty => false
+  | _ => true
+
+/-- number of symbols in the cache / number of non-empty slots -/
+def liveCount (sl : List Slot) : Nat := sl.countP isLive
+def occ (sl : List Slot) : Nat := sl.countP isOcc
+
+theorem gd_cons_succ (a : Slot) (l : List Slot) (i : Nat) : gd (a :: l) (i + 1) = gd l i := by simp [gd]
+
+theorem occ_lt_exists_empty : ∀ (sl : List Slot), occ sl < sl.length → ∃ i, i < sl.length ∧ gd sl i = .empty
+  | [], h => by simp at h
+  | a :: l, h => by
+      cases a with
+      | empty => exact ⟨0, by simp, by simp [gd]⟩
+      | deleted =>
+        have : occ l < l.length := by unfold occ at h ⊢; rw [List.countP_cons] at h; simp [isOcc] at h; omega
+        obtain ⟨i, hi, he⟩ := occ_lt_exists_empty l this
+        exact ⟨i + 1, by simp; omega, by rw [gd_cons_succ]; exact he⟩
+      | live p b =>
+        have : occ l < l.length := by unfold occ at h ⊢; rw [List.countP_cons] at h; simp [isOcc] at h; omega
+        obtain ⟨i, hi, he⟩ := occ_lt_exists_empty l this
+        exact ⟨i + 1, by simp; omega, by rw [gd_cons_succ]; exact he⟩
+
+/-- the probe gives up (NULL bucket) only after seeing `fuel` live entries in a row -/
+theorem findLoop_none (bytes : List UInt8) (cap index : Nat) (sl sl' : List Slot) :
+    ∀ (fuel k0 : Nat) (fe : Option Nat), findLoop bytes cap index fuel k0 fe sl = (sl', .miss none) →
+      ∀ k, k0 ≤ k → k < k0 + fuel → gd sl (pos cap index k) ≠ .empty := by
+  intro fuel
+  induction fuel with
+  | zero => intro k0 fe _ k h1 h2; omega
+  | succ fuel ih =>
+    intro k0 fe h k h1 h2
+    cases hs : gd sl (pos cap index k0) with
+    | empty => rw [findLoop_empty hs] at h; simp at h
+    | deleted =>
+      rw [findLoop_deleted hs] at h
+      by_cases hk : k = k0
+      · subst hk; rw [hs]; simp
+      · exact ih (k0 + 1) _ h k (by omega) (by omega)
+    | live q b' =>
+      by_cases hb : b' = bytes
+      · subst hb; rw [findLoop_match hs] at h; cases fe <;> simp at h
+      · rw [findLoop_other hs hb] at h
+        by_cases hk : k = k0
+        · subst hk; rw [hs]; simp
+        · exact ih (k0 + 1) _ h k (by omega) (by omega)
+
+/-- with a free slot somewhere a failed lookup always returns a bucket -/
+theorem find_miss_some {sl : List Slot} {b : List UInt8} (hno : ∀ q, ¬ Live sl q b) (hocc : occ sl < sl.length) :
+    ∃ bk, find sl b = (sl, .miss (some bk)) := by
+  obtain ⟨r, hf, _⟩ := find_miss hno
+  cases r with
+  | some bk => exact ⟨bk, hf⟩
+  | none =>
+    exfalso
+    obtain ⟨i, hi, he⟩ := occ_lt_exists_empty sl hocc
+    have hcap : 0 < sl.length := by omega
+    obtain ⟨k, hk, hp⟩ := pos_surj (home_lt hcap b) hi
+    have := findLoop_none b sl.length (home sl.length b) sl sl sl.length 0 none hf k (Nat.zero_le _) (by omega)
+    rw [hp] at this
+    exact this he
+
+theorem occ_set_le (sl : List Slot) (i : Nat) (v : Slot) : occ (sl.set i v) ≤ occ sl + 1 := by
+  unfold occ
+  by_cases h : i < sl.length
+  · rw [List.countP_set h]; split <;> split <;> omega
+  · rw [List.set_eq_of_length_le (by omega)]; omega
+
+theorem liveCount_cons (a : Slot) (l : List Slot) : liveCount (a :: l) = (if isLive a then 1 else 0) + liveCount l := by
+  unfold liveCount; rw [List.countP_cons]; omega
+
+theorem occ_replicate (n : Nat) : occ (List.replicate n Slot.empty) = 0 := by
+  unfold occ; simp [List.countP_replicate, isOcc]
+
+theorem liveCount_set : ∀ (sl : List Slot) (i : Nat) (v : Slot), i < sl.length →
+    liveCount (sl.set i v) + (if isLive (gd sl i) then 1 else 0) = liveCount sl + (if isLive v then 1 else 0)
+  | [], _, _, h => by simp at h
+  | a :: l, 0, v, _ => by simp only [List.set_cons_zero, liveCount_cons, gd]; simp; omega
+  | a :: l, i + 1, v, h => by
+      have := liveCount_set l i v (by simpa using h)
+      simp only [List.set_cons_succ, liveCount_cons, gd_cons_succ]; omega
+
+theorem liveCount_insert {sl : List Slot} {bk : Nat} (hlt : bk < sl.length) (hfree : gd sl bk = .empty ∨ gd sl bk = .deleted)
+    (p : Nat) (b : List UInt8) : liveCount (sl.set bk (.live p b)) = liveCount sl + 1 := by
+  have := liveCount_set sl bk (.live p b) hlt
+  rcases hfree with h | h <;> rw [h] at this <;> simp [isLive] at this <;> omega
+
+/-- the re-insertion loop of `janet_cache_resize` loses no symbol when the new array has room:
+    every symbol of the old array, and everything already in the new one, is in the result -/
+theorem reinsert_keeps : ∀ (old new : List Slot), Inv new →
+    (∀ i j p q b, gd old i = .live p b → gd old j = .live q b → i = j) →
+    (∀ i p b, gd old i = .live p b → ∀ q, ¬ Live new q b) →
+    occ new + liveCount old ≤ new.length →
+    (∀ q c, Live new q c → Live (reinsert old new) q c) ∧
+    (∀ i p b, gd old i = .live p b → Live (reinsert old new) p b) ∧
+    occ (reinsert old new) ≤ occ new + liveCount old ∧
+    liveCount (reinsert old new) = liveCount new + liveCount old
+  | [], new, _, _, _, _ => ⟨fun q c h => h, fun i p b h => by simp [gd] at h, by simp [reinsert, liveCount], by simp [reinsert, liveCount]⟩
+  | .empty :: rest, new, hinv, hnd, hdis, hroom => by
+      have ih := reinsert_keeps rest new hinv (fun i j p q b h1 h2 => by
+          have := hnd (i + 1) (j + 1) p q b (by rw [gd_cons_succ]; exact h1) (by rw [gd_cons_succ]; exact h2); omega)
+        (fun i p b h => hdis (i + 1) p b (by rw [gd_cons_succ]; exact h))
+        (by rw [liveCount_cons] at hroom; simp [isLive] at hroom; exact hroom)
+      simp only [reinsert]
+      refine ⟨ih.1, fun i p b h => ?_, by rw [liveCount_cons]; simp [isLive]; exact ih.2.2.1,
+        by rw [liveCount_cons]; simp [isLive]; exact ih.2.2.2⟩
+      cases i with
+      | zero => simp [gd] at h
+      | succ i => exact ih.2.1 i p b (by rw [gd_cons_succ] at h; exact h)
+  | .deleted :: rest, new, hinv, hnd, hdis, hroom => by
+      have ih := reinsert_keeps rest new hinv (fun i j p q b h1 h2 => by
+          have := hnd (i + 1) (j + 1) p q b (by rw [gd_cons_succ]; exact h1) (by rw [gd_cons_succ]; exact h2); omega)
+        (fun i p b h => hdis (i + 1) p b (by rw [gd_cons_succ]; exact h))
+        (by rw [liveCount_cons] at hroom; simp [isLive] at hroom; exact hroom)
+      simp only [reinsert]
+      refine ⟨ih.1, fun i p b h => ?_, by rw [liveCount_cons]; simp [isLive]; exact ih.2.2.1,
+        by rw [liveCount_cons]; simp [isLive]; exact ih.2.2.2⟩
+      cases i with
+      | zero => simp [gd] at h
+      | succ i => exact ih.2.1 i p b (by rw [gd_cons_succ] at h; exact h)
+  | .live p0 b0 :: rest, new, hinv, hnd, hdis, hroom => by
+      have hno : ∀ q, ¬ Live new q b0 := hdis 0 p0 b0 (by simp [gd])
+      rw [liveCount_cons] at hroom
+      simp only [isLive, if_true] at hroom
+      obtain ⟨bk, hf⟩ := find_miss_some hno (by omega)
+      obtain ⟨r, hf', hb⟩ := find_miss hno
+      rw [hf] at hf'
+      have hr : r = some bk := by simpa using hf'.symm
+      obtain ⟨hlt, hfree, hreach⟩ := hb bk hr
+      have hins := Inv.insert hinv hno (ptr := p0) hlt hfree hreach
+      have ih := reinsert_keeps rest (new.set bk (.live p0 b0)) hins.1
+        (fun i j p q b h1 h2 => by
+          have := hnd (i + 1) (j + 1) p q b (by rw [gd_cons_succ]; exact h1) (by rw [gd_cons_succ]; exact h2); omega)
+        (fun i p b h q hl => by
+          rcases (hins.2 q b).mp hl with h1 | ⟨_, h2⟩
+          · exact hdis (i + 1) p b (by rw [gd_cons_succ]; exact h) q h1
+          · subst h2
+            have := hnd (i + 1) 0 p p0 b (by rw [gd_cons_succ]; exact h) (by simp [gd]); omega)
+        (by have := occ_set_le new bk (.live p0 b0); simp; omega)
+      simp only [reinsert, hf]
+      refine ⟨fun q c h => ih.1 q c ((hins.2 q c).mpr (Or.inl h)), fun i p b h => ?_, ?_, ?_⟩
+      · cases i with
+        | zero =>
+          simp [gd] at h
+          obtain ⟨h1, h2⟩ := h; subst h1; subst h2
+          exact ih.1 p0 b0 ((hins.2 p0 b0).mpr (Or.inr ⟨rfl, rfl⟩))
+        | succ i => exact ih.2.1 i p b (by rw [gd_cons_succ] at h; exact h)
+      · have := occ_set_le new bk (.live p0 b0)
+        have := ih.2.2.1
+        rw [liveCount_cons]; simp only [isLive, if_true]; omega
+      · have := liveCount_insert hlt hfree p0 b0
+        have := ih.2.2.2
+        rw [liveCount_cons]; simp only [isLive, if_true]; omega
+
+
+@[simp] theorem isLive_live (p : Nat) (b : List UInt8) : isLive (.live p b) = true := rfl
+@[simp] theorem isLive_deleted : isLive .deleted = false := rfl
+@[simp] theorem isLive_empty : isLive .empty = false := rfl
+theorem liveCount_replicate (n : Nat) : liveCount (List.replicate n Slot.empty) = 0 := by
+  simp [liveCount, List.countP_replicate]
+
+theorem vacatedByMove_isLive : isLive vacatedByMove = false := by unfold vacatedByMove; split <;> rfl
+theorem vacatedByDeinit_isLive : isLive vacatedByDeinit = false := by unfold vacatedByDeinit; split <;> rfl
+
+/-- a successful lookup (with or without the move into a tombstone) does not change the number of symbols -/
+theorem find_hit_count {sl : List Slot} (hinv : Inv sl) {i p : Nat} {b : List UInt8} (hlive : gd sl i = .live p b)
+    {sl' : List Slot} {r : Found} (hf : find sl b = (sl', r)) : liveCount sl' = liveCount sl := by
+  obtain ⟨d, hd, hi, hpath⟩ := hinv.chain i p b hlive
+  have hcap : 0 < sl.length := by omega
+  have hh := home_lt hcap b
+  rw [hi] at hlive
+  have hother : ∀ k, 0 ≤ k → k < d → gd sl (pos sl.length (home sl.length b) k) ≠ .empty ∧
+      ∀ q, gd sl (pos sl.length (home sl.length b) k) ≠ .live q b := by
+    intro k _ hk
+    refine ⟨hpath k hk, fun q hq => ?_⟩
+    have := pos_inj hh (by omega) hd (hinv.nodup _ _ _ _ _ hq hlive)
+    omega
+  have := findLoop_hit b sl.length (home sl.length b) sl p d hlive sl.length 0 none (Nat.zero_le _) (by omega) hother
+  unfold find at hf
+  rcases this with ⟨h1, _, _⟩ | ⟨f, h1, hor⟩
+  · rw [h1] at hf; cases hf; rfl
+  · rcases hor with h | ⟨_, j, _, hj2, hj3, hj4⟩
+    · cases h
+    · rw [h1] at hf; cases hf
+      have hf_lt : f < sl.length := by rw [hj3]; exact pos_lt hh (by omega)
+      have hi_lt : pos sl.length (home sl.length b) d < sl.length := pos_lt hh hd
+      have hne : f ≠ pos sl.length (home sl.length b) d := by
+        rw [hj3]; intro e; have := pos_inj hh (by omega) hd e; omega
+      have e1 := liveCount_set sl f (.live p b) hf_lt
+      have e2 := liveCount_set (sl.set f (.live p b)) (pos sl.length (home sl.length b) d) vacatedByMove (by simpa using hi_lt)
+      rw [gd_set] at e2
+      simp only [hne, false_and, if_false, hlive, isLive_live, if_true, vacatedByMove_isLive, Bool.false_eq_true] at e2
+      rw [hj4] at e1
+      simp only [isLive_deleted, isLive_live, if_true, if_false, Bool.false_eq_true] at e1
+      omega
+
+/-- full invariant of the cache state -/
+structure CInvC (c : Cache) : Prop extends CInv c where
+  cnt : c.count = liveCount c.slots
+
+theorem init_invC : CInvC init :=
+  { toCInv := init_inv, cnt := by simp [init, liveCount_replicate] }
+
+theorem deinit_cnt {c : Cache} (h : CInvC c) (b : List UInt8) : CInvC (deinit c b) := by
+  refine { toCInv := (deinit_spec h.toCInv b).1, cnt := ?_ }
+  by_cases hex : ∃ q, Live c.slots q b
+  · obtain ⟨q, i, hi⟩ := hex
+    obtain ⟨sl', bkt, hf, hb, _, _, _⟩ := find_hit h.inv hi
+    have hc := find_hit_count h.inv hi hf
+    have hlt : bkt < sl'.length := gd_lt (by rw [hb]; simp)
+    have e := liveCount_set sl' bkt vacatedByDeinit hlt
+    rw [hb] at e
+    simp only [isLive_live, if_true, vacatedByDeinit_isLive, if_false, Bool.false_eq_true] at e
+    simp only [deinit, hf]
+    have := h.cnt
+    omega
+  · have hno : ∀ q, ¬ Live c.slots q b := fun q hq => hex ⟨q, hq⟩
+    obtain ⟨r, hf, _⟩ := find_miss hno
+    simp only [deinit, hf]; exact h.cnt
+
+theorem tablen_gt (n : Nat) : n < tablen n := by
+  unfold tablen
+  have : ∀ (l : List Nat) (m : Nat), m ≤ l.foldl (fun n s => n ||| (n >>> s)) m := by
+    intro l
+    induction l with
+    | nil => intro m; exact Nat.le_refl _
+    | cons s l ih => intro m; exact Nat.le_trans Nat.left_le_or (ih _)
+  have := this tablenShifts n
+  omega
+
+/-- `janet_symcache_put` with the counter in step: the new symbol is added, no symbol is lost (also across a resize) -/
+theorem put_specC {c : Cache} (hinv : Inv c.slots) (hcnt : c.count = liveCount c.slots) {b : List UInt8}
+    (hno : ∀ q, ¬ Live c.slots q b) {ptr : Nat} {bucket : Option Nat}
+    (hb : ∀ bk, bucket = some bk → bk < c.slots.length ∧ (gd c.slots bk = .empty ∨ gd c.slots bk = .deleted) ∧ Reach c.slots b bk)
+    {c' : Cache} (hput : put c ptr b bucket = some c') :
+    c'.count = liveCount c'.slots ∧ ∀ q x, Live c'.slots q x ↔ (Live c.slots q x ∨ (q = ptr ∧ x = b)) := by
+  have hps := put_spec hinv hno hb hput
+  unfold put at hput
+  by_cases hres : (c.count + c.deleted) * 2 > c.slots.length
+  · simp only [hres, if_true] at hput
+    have hroom : occ (List.replicate (tablen (2 * c.count + 1)) Slot.empty) + liveCount c.slots ≤
+        (List.replicate (tablen (2 * c.count + 1)) Slot.empty).length := by
+      have := tablen_gt (2 * c.count + 1)
+      rw [occ_replicate]; simp; omega
+    have hk := reinsert_keeps c.slots (List.replicate (tablen (2 * c.count + 1)) .empty) (Inv.replicate _)
+      hinv.nodup (fun i p b' _ q => not_live_replicate _ _ _) hroom
+    have hr := reinsert_inv c.slots (List.replicate (tablen (2 * c.count + 1)) .empty) (Inv.replicate _)
+    have hno2 : ∀ q, ¬ Live (resize c (tablen (2 * c.count + 1))).slots q b := by
+      intro q hq
+      rcases hr.2.2 q b hq with h1 | h1
+      · exact not_live_replicate _ _ _ h1
+      · exact hno q (inOld_live h1)
+    obtain ⟨r, hf, hb2⟩ := find_miss hno2
+    simp only [hf] at hput
+    cases r with
+    | none => simp at hput
+    | some bk =>
+      simp only [Option.some.injEq] at hput
+      obtain ⟨hlt, hfree, _⟩ := hb2 bk rfl
+      subst hput
+      refine ⟨?_, fun q x => ⟨hps.2.2.2 q x, ?_⟩⟩
+      · have := liveCount_insert hlt hfree ptr b
+        have h4 := hk.2.2.2
+        rw [liveCount_replicate] at h4
+        simp only [resize] at this ⊢
+        omega
+      · rintro (⟨y, hy⟩ | ⟨h1, h2⟩)
+        · have hl := hk.2.1 y q x hy
+          have hins := Inv.insert (show Inv (resize c (tablen (2 * c.count + 1))).slots from hr.1) hno2 (ptr := ptr) hlt hfree (hb2 bk rfl).2.2
+          exact (hins.2 q x).mpr (Or.inl hl)
+        · subst h1; subst h2; exact hps.2.2.1
+  · simp only [hres, if_false] at hput
+    cases bucket with
+    | none => simp at hput
+    | some bk =>
+      simp only [Option.some.injEq] at hput
+      obtain ⟨hlt, hfree, hreach⟩ := hb bk rfl
+      have hins := Inv.insert hinv hno (ptr := ptr) hlt hfree hreach
+      subst hput
+      exact ⟨by have := liveCount_insert hlt hfree ptr b; simp only []; omega, fun q x => hins.2 q x⟩
+
+
+theorem intern_liveC {c : Cache} (h : CInvC c) {p : Nat} {b : List UInt8} (hl : Live c.slots p b) :
+    ∃ c', intern c b = some (c', p) ∧ CInvC c' ∧ ∀ q x, Live c'.slots q x ↔ Live c.slots q x := by
+  obtain ⟨i, hi⟩ := hl
+  obtain ⟨sl', bkt, hf, hb, hinv', _, hlive'⟩ := find_hit h.inv hi
+  have hc := find_hit_count h.inv hi hf
+  unfold gd at hb
+  refine ⟨{ c with slots := sl' }, by simp only [intern, hf, hb], ?_, hlive'⟩
+  exact { inv := hinv', fresh := fun q x hq => h.fresh q x ((hlive' q x).mp hq),
+          ptrInj := fun q x x' h1 h2 => h.ptrInj q x x' ((hlive' q x).mp h1) ((hlive' q x').mp h2),
+          cnt := by simp only []; rw [hc]; exact h.cnt }
+
+theorem intern_newC {c : Cache} (h : CInvC c) {b : List UInt8} (hno : ∀ q, ¬ Live c.slots q b) {c' : Cache} {p : Nat}
+    (hi : intern c b = some (c', p)) :
+    p = c.next ∧ CInvC c' ∧ ∀ q x, Live c'.slots q x ↔ (Live c.slots q x ∨ (q = p ∧ x = b)) := by
+  have hn := intern_new h.toCInv hno hi
+  obtain ⟨r, hf, hb⟩ := find_miss hno
+  cases r with
+  | none => simp [intern, hf] at hi
+  | some bk0 =>
+  simp only [intern, hf, Option.map_eq_some_iff] at hi
+  obtain ⟨c'', hput, he⟩ := hi
+  simp only [Prod.mk.injEq] at he
+  obtain ⟨he1, he2⟩ := he
+  subst he1; subst he2
+  have := put_specC (c := { c with slots := c.slots, next := c.next + 1 }) h.inv h.cnt hno hb hput
+  exact ⟨rfl, { toCInv := hn.2.1, cnt := this.1 }, this.2⟩
+
+/-- ghost state: the byte strings interned and not swept since -/
+def aliveAfter : List (List UInt8) → List Op → List (List UInt8)
+  | s, [] => s
+  | s, .intern b :: ops => aliveAfter (if b ∈ s then s else b :: s) ops
+  | s, .sweep b :: ops => aliveAfter (s.filter (· ≠ b)) ops
+
+/-- along any history the invariant holds and the cache contains exactly the symbols interned and not swept since -/
+theorem run_spec : ∀ (ops : List Op) (c : Cache) (s : List (List UInt8)) (c' : Cache), CInvC c →
+    (∀ b, (∃ p, Live c.slots p b) ↔ b ∈ s) → run c ops = some c' →
+    CInvC c' ∧ ∀ b, (∃ p, Live c'.slots p b) ↔ b ∈ aliveAfter s ops
+  | [], c, s, c', h, hs, hr => by simp only [run, Option.some.injEq] at hr; subst hr; exact ⟨h, hs⟩
+  | .intern b :: ops, c, s, c', h, hs, hr => by
+      simp only [run] at hr
+      cases hi : intern c b with
+      | none => simp [hi] at hr
+      | some r =>
+        obtain ⟨c1, p1⟩ := r
+        simp only [hi] at hr
+        by_cases hex : ∃ p, Live c.slots p b
+        · obtain ⟨p, hp⟩ := hex
+          obtain ⟨c1', hi', hinv1, hl1⟩ := intern_liveC h hp
+          rw [hi] at hi'; simp only [Option.some.injEq, Prod.mk.injEq] at hi'
+          obtain ⟨e1, _⟩ := hi'; subst e1
+          refine run_spec ops c1 _ c' hinv1 (fun x => ?_) hr
+          have hb : b ∈ s := (hs b).mp ⟨p, hp⟩
+          simp only [hb, if_true]
+          rw [← hs x]; exact ⟨fun ⟨q, hq⟩ => ⟨q, (hl1 q x).mp hq⟩, fun ⟨q, hq⟩ => ⟨q, (hl1 q x).mpr hq⟩⟩
+        · have hno : ∀ q, ¬ Live c.slots q b := fun q hq => hex ⟨q, hq⟩
+          obtain ⟨_, hinv1, hl1⟩ := intern_newC h hno hi
+          refine run_spec ops c1 _ c' hinv1 (fun x => ?_) hr
+          have hb : b ∉ s := fun hb => hex ((hs b).mpr hb)
+          simp only [hb, if_false, List.mem_cons]
+          constructor
+          · rintro ⟨q, hq⟩
+            rcases (hl1 q x).mp hq with h1 | ⟨_, h2⟩
+            · exact Or.inr ((hs x).mp ⟨q, h1⟩)
+            · exact Or.inl h2
+          · rintro (h1 | h1)
+            · subst h1; exact ⟨p1, (hl1 p1 x).mpr (Or.inr ⟨rfl, rfl⟩)⟩
+            · obtain ⟨q, hq⟩ := (hs x).mpr h1
+              exact ⟨q, (hl1 q x).mpr (Or.inl hq)⟩
+  | .sweep b :: ops, c, s, c', h, hs, hr => by
+      simp only [run] at hr
+      have hd := deinit_spec h.toCInv b
+      refine run_spec ops (deinit c b) _ c' (deinit_cnt h b) (fun x => ?_) hr
+      simp only [List.mem_filter, decide_eq_true_eq]
+      rw [← hs x]
+      constructor
+      · rintro ⟨q, hq⟩; exact ⟨⟨q, ((hd.2 q x).mp hq).1⟩, ((hd.2 q x).mp hq).2⟩
+      · rintro ⟨⟨q, hq⟩, hne⟩; exact ⟨q, (hd.2 q x).mpr ⟨hq, hne⟩⟩
+
+/-- a symbol stays at its address as long as it is not swept -/
+theorem live_stable : ∀ (ops : List Op) (c c' : Cache) (p : Nat) (b : List UInt8), CInvC c → Live c.slots p b →
+    run c ops = some c' → (∀ o ∈ ops, o ≠ Op.sweep b) → Live c'.slots p b
+  | [], c, c', p, b, _, hl, hr, _ => by simp only [run, Option.some.injEq] at hr; subst hr; exact hl
+  | .intern b0 :: ops, c, c', p, b, h, hl, hr, hns => by
+      simp only [run] at hr
+      cases hi : intern c b0 with
+      | none => simp [hi] at hr
+      | some r =>
+        obtain ⟨c1, p1⟩ := r
+        simp only [hi] at hr
+        have hns' : ∀ o ∈ ops, o ≠ Op.sweep b := fun o ho => hns o (List.mem_cons_of_mem _ ho)
+        by_cases hex : ∃ q, Live c.slots q b0
+        · obtain ⟨q, hq⟩ := hex
+          obtain ⟨c1', hi', hinv1, hl1⟩ := intern_liveC h hq
+          rw [hi] at hi'; simp only [Option.some.injEq, Prod.mk.injEq] at hi'
+          obtain ⟨e1, _⟩ := hi'; subst e1
+          exact live_stable ops c1 c' p b hinv1 ((hl1 p b).mpr hl) hr hns'
+        · have hno : ∀ q, ¬ Live c.slots q b0 := fun q hq => hex ⟨q, hq⟩
+          obtain ⟨_, hinv1, hl1⟩ := intern_newC h hno hi
+          exact live_stable ops c1 c' p b hinv1 ((hl1 p b).mpr (Or.inl hl)) hr hns'
+  | .sweep b0 :: ops, c, c', p, b, h, hl, hr, hns => by
+      simp only [run] at hr
+      have hne : b ≠ b0 := fun e => hns (.sweep b0) (List.mem_cons_self ..) (by rw [e])
+      have hd := deinit_spec h.toCInv b0
+      exact live_stable ops (deinit c b0) c' p b (deinit_cnt h b0) ((hd.2 p b).mpr ⟨hl, hne⟩) hr
+        (fun o ho => hns o (List.mem_cons_of_mem _ ho))
+
+/-- the invariant holds along any history -/
+theorem run_inv : ∀ (ops : List Op) (c c' : Cache), CInvC c → run c ops = some c' → CInvC c'
+  | [], c, c', h, hr => by simp only [run, Option.some.injEq] at hr; subst hr; exact h
+  | .intern b :: ops, c, c', h, hr => by
+      simp only [run] at hr
+      cases hi : intern c b with
+      | none => simp [hi] at hr
+      | some r =>
+        obtain ⟨c1, p1⟩ := r
+        simp only [hi] at hr
+        by_cases hex : ∃ p, Live c.slots p b
+        · obtain ⟨p, hp⟩ := hex
+          obtain ⟨c1', hi', hinv1, _⟩ := intern_liveC h hp
+          rw [hi] at hi'; simp only [Option.some.injEq, Prod.mk.injEq] at hi'
+          obtain ⟨e1, _⟩ := hi'; subst e1
+          exact run_inv ops c1 c' hinv1 hr
+        · have hno : ∀ q, ¬ Live c.slots q b := fun q hq => hex ⟨q, hq⟩
+          exact run_inv ops c1 c' (intern_newC h hno hi).2.1 hr
+  | .sweep b :: ops, c, c', h, hr => by
+      simp only [run] at hr
+      exact run_inv ops (deinit c b) c' (deinit_cnt h b) hr
+
+/-- after `intern` the symbol is cached at the returned address -/
+theorem intern_post {c c1 : Cache} {b : List UInt8} {p1 : Nat} (hc : CInvC c) (h1 : intern c b = some (c1, p1)) :
+    CInvC c1 ∧ Live c1.slots p1 b ∧ ((∀ q, ¬ Live c.slots q b) → p1 = c.next) ∧ (∀ q, Live c.slots q b → q = p1) := by
+  by_cases hex : ∃ q, Live c.slots q b
+  · obtain ⟨q, hq⟩ := hex
+    obtain ⟨c1', hi', hinv1, hl1⟩ := intern_liveC hc hq
+    rw [h1] at hi'; simp only [Option.some.injEq, Prod.mk.injEq] at hi'
+    obtain ⟨e1, e2⟩ := hi'; subst e1; subst e2
+    refine ⟨hinv1, (hl1 _ _).mpr hq, fun hno => absurd hq (hno _), fun q' hq' => ?_⟩
+    obtain ⟨i, hi⟩ := hq; obtain ⟨j, hj⟩ := hq'
+    have := hc.inv.nodup i j _ _ b hi hj
+    subst this; rw [hi] at hj; cases hj; rfl
+  · have hno : ∀ q, ¬ Live c.slots q b := fun q hq => hex ⟨q, hq⟩
+    obtain ⟨hp, hinv1, hl1⟩ := intern_newC hc hno h1
+    exact ⟨hinv1, (hl1 _ _).mpr (Or.inr ⟨rfl, rfl⟩), fun _ => hp, fun q hq => absurd hq (hno q)⟩
+
 end JanetModel.Value.SymCache
